@@ -81,6 +81,13 @@ def build(tier):
             lab = [k for k, n in enumerate(sizes) for _ in range(n)]
             rng.shuffle(lab)
             scr.append(({"T": 6, "K": 3, "limit": 3, "m": 2}, [0, 0, 1, 1, 2, 2], [lab, lab, lab], "aimed-donor"))
+        # ... with a donor that could give once or twice but not as often as needed (K = 4, m = 2: three clusters are
+        # short, the only donor holds 6 or 7 >= 3m points, capacity 2 < 3): the shortage appears part way through
+        for sizes in ([6, 0, 0, 0], [0, 7, 0, 0], [0, 0, 6, 1], [1, 0, 0, 6], [7, 0, 1, 0]):
+            lab = [k for k, n in enumerate(sizes) for _ in range(n)]
+            rng.shuffle(lab)
+            init = [i % 4 for i in range(len(lab))]
+            scr.append(({"T": len(lab), "K": 4, "limit": 3, "m": 2}, init, [lab, lab, lab], "aimed-donor-partial"))
     else:
         scr += list(enumerated_scripts(3, 2, 3, 1))                       # 4 096
         scr += list(enumerated_scripts(4, 2, 2, 1))                       # 4 096
